@@ -22,6 +22,100 @@ REGISTRY: dict[str, dict[str, str]] = {
         "note": "Trusted: CPython argparse/dataclass semantics, the analyser's binding and reaching-definition model.",
         "design_ref": "DESIGN.md §3 R-OPTFLOW/R-SINK, §4 C15",
     },
+    "C03": {
+        "technique": "static analysis: attribute-read scan over the call graph, data-path slicing for whitespace normalisation, "
+                     "predicate classification, dominance of strip()+newline before the parser",
+        "level": "Decides five structural necessary conditions of layout independence (Y1-Y5): no source-position reads, every "
+                 "terminal path of the base wrappers collapses whitespace, segment boundaries are tag-adjacency predicates (two "
+                 "deliberate block-content disjuncts recorded as findings), identical decorator stacks, stripped and "
+                 "newline-terminated parser input. Byte identity across re-layouts / option chains is a relation between runs "
+                 "and is not decided.",
+        "note": "Trusted: str.split()/re.sub semantics; the word/sentence splitter protocols split on whitespace.",
+        "design_ref": "DESIGN.md §3 R-LAYOUT, §4 C03",
+    },
+    "C04": {
+        "technique": "static analysis: forward taint of verbatim fields with an operation allow/deny table, lower-bound "
+                     "propagation for the fence, isinstance-dominance of text stores, MRO-aware container table check",
+        "level": "Decides that verbatim fields reach the output through content-preserving operations only, that delimited "
+                 "contexts use content-dependent encoders, that the fence is strictly longer than any fence-like run of the "
+                 "emitted text, and that rewrites cannot reach non-prose nodes or template tags. Parser-side normalisation in "
+                 "marko is outside the repository.",
+        "note": "Trusted: the operation table (lossy vs preserving string methods), marko class hierarchy as installed.",
+        "design_ref": "DESIGN.md §3 R-ENCODE/R-BOUND/R-REWRITE, §4 C04",
+    },
+    "C05": {
+        "technique": "static analysis: per-iteration path enumeration of the fill loop, identity origins, flush-after-loop pairing, "
+                     "symbolic width/indent accounting",
+        "level": "Decides losslessness structurally (each word placed exactly once and whole on every path, accumulators "
+                 "flushed, sentence lines never dropped, indents routed correctly) and that width/indents are accounted exactly "
+                 "once on every chain (the indented Wrap modes of fill_text count the indent twice: recorded finding). The width "
+                 "bound and maximality are arithmetic on runtime lengths and are not decided.",
+        "note": "Trusted: list/str method semantics.",
+        "design_ref": "DESIGN.md §3 R-LOSSLESS/R-ACCT, §4 C05",
+    },
+    "C06": {
+        "technique": "static analysis: constant folding of the pattern tables, table agreement, regex-automaton membership of "
+                     "constant sample constructs, typestate of placeholders and tag adjacency",
+        "level": "Decides that the atomic-construct tables agree and cover every construct family of the statement, that "
+                 "extraction/restoration and normalise/denormalise are paired on every path, and that the tag post-passes run on "
+                 "every exit. The adjacency separator is not reserved (recorded finding F-08). Recognition of a construct "
+                 "instance in runtime text is not decided.",
+        "note": "Trusted: regex model over-approximates languages; sample spellings are constants of the check.",
+        "design_ref": "DESIGN.md §4 C06",
+    },
+    "C07": {
+        "technique": "static analysis: use-site enumeration and dominance in fill_markdown, forward taint through split_frontmatter",
+        "level": "Decides that the frontmatter text reaches the result only through the final concatenation, is split off before "
+                 "any processing, never influences the body, and is built by an inverse split/join pair (only CRLF->LF folding). "
+                 "The unclosed-frontmatter clause is a value property and not decided.",
+        "note": "Trusted: str.split('\\n') / '\\n'.join are inverse.",
+        "design_ref": "DESIGN.md §4 C07",
+    },
+    "C08": {
+        "technique": "static analysis: sre parse-tree shape of pattern + replacement callback, partition of slices, "
+                     "isinstance-dominance of stores, non-interference by slicing",
+        "level": "Decides that the quote substitution can only swap the two quote characters of a match for the matching curly "
+                 "pair (length preserving), apostrophes are one-for-one, tags are copied verbatim, the write-back is per segment "
+                 "under the length assertion and only into RawText nodes, and the option influences nothing else. Line-break "
+                 "equality with the option off is not decided.",
+        "note": "Trusted: re.sub / re.split semantics.",
+        "design_ref": "DESIGN.md §3 R-SUBSHAPE/R-REWRITE/R-NONINT, §4 C08",
+    },
+    "C09": {
+        "technique": "static analysis: sre parse-tree shape of pattern + callback (data-flow of emitted constants), "
+                     "isinstance-dominance, sibling rule for template tags, non-interference",
+        "level": "Decides that only the three dots and adjacent spaces of a match can change, that the rewrite reaches RawText "
+                 "only, sees coalesced text, protects template tags like its sibling, and that the option influences nothing "
+                 "else. Idempotence of the rewrite is not decided.",
+        "note": "Trusted: re.sub semantics.",
+        "design_ref": "DESIGN.md §4 C09",
+    },
+    "C10": {
+        "technique": "static analysis: guard dominance in the cleanup, alias-class coverage of isinstance dispatch, enum-arm "
+                     "exhaustiveness, read/write confinement of the tightness flag",
+        "level": "Decides that cleanups only unwrap a heading's single strong child (for every heading class), that list-spacing "
+                 "has one arm per mode with the right input, and that the mode can influence nothing but the blank separator "
+                 "line between items. Which lists end up tight is value-level.",
+        "note": "Trusted: marko class hierarchy as installed.",
+        "design_ref": "DESIGN.md §4 C10",
+    },
+    "C11": {
+        "technique": "static analysis: liveness (loop-carried state) and access-footprint of the line list in the sentence loop, "
+                     "per-iteration path pairing",
+        "level": "Proves the prefix half of diff locality by a frame argument (only lines[-1] crosses a sentence boundary) and "
+                 "decides the wiring of the semantic mode. Suffix stability and break placement are arithmetic and not decided.",
+        "note": "Trusted: list semantics.",
+        "design_ref": "DESIGN.md §3 R-SENT, §4 C11",
+    },
+    "C12": {
+        "technique": "static analysis: loop-progress cycles in the CFG, structural recursion, Glushkov-automaton ambiguity and "
+                     "star-normal-form tests on every regex constant, dominance of non-emptiness facts",
+        "level": "Decides the structural causes of divergence and crashes: loops without progress, non-structural recursion, "
+                 "regexes with exponential backtracking shapes, unguarded constant indexing; plus output hygiene clauses. "
+                 "Wall-clock behaviour, polynomial regex cost and hangs inside marko are not decided.",
+        "note": "Trusted: regex model over-approximates languages (a 'no' is sound); marko terminates.",
+        "design_ref": "DESIGN.md §3 R-TERM, §4 C12",
+    },
     "C13": {
         "technique": "static analysis: call-graph reachability, effect / escape analysis, alias origins (confinement argument)",
         "level": "Confinement: over every function reachable from the formatting entry points no store reaches a location that "
